@@ -776,6 +776,8 @@ class SlowSink:
         self._delay, self._log, self._lock = delay, log, lock
         self.writer_thread: threading.Thread | None = None
         self.name = path
+        self.item = 0
+        self.marker = "\n- id: '" if path.endswith(".yaml") else '"startedDateTime"'
 
     def open(self):
         return self
@@ -783,8 +785,10 @@ class SlowSink:
     def write(self, data: str) -> int:
         time.sleep(self._delay)
         n = self._fd.write(data)  # raises ValueError on a closed file - as the real LazyFile does
+        if self.marker in data:  # the piece that opens the next exchange (content-based: item boundaries are observable)
+            self.item += 1
         with self._lock:
-            self._log.append("W")
+            self._log.append(("W", self.item))
         return n
 
     def flush(self) -> None:
@@ -872,10 +876,14 @@ def writer_run(desc: dict) -> list[dict]:
         shutil.rmtree(d, ignore_errors=True)
 
 
+def _ename(e) -> str:
+    return e if isinstance(e, str) else e[0]
+
+
 def judge_writer(ctx: Ctx, traces: list[dict], tag: str = "w") -> tuple[list[dict], int]:
     """TLC replays every trace through ReportsWriter's actions. Returns per trace {accepted, stuck_at} and the state count."""
     f = ctx.path("writer-%s.json" % tag)
-    tlc.write_json(f, {"traces": [{"events": t["events"], "n": t["n"], "entries": t["entries"], "wellFormed": t["wellFormed"]}
+    tlc.write_json(f, {"traces": [{"events": [{"e": e, "k": 0} if isinstance(e, str) else {"e": e[0], "k": e[1]} for e in t["events"]], "n": t["n"], "entries": t["entries"], "wellFormed": t["wellFormed"]}
                                   for t in traces]})
     at: list = []
     res = tlc.require_ok(tlc.run_tlc("ReportsWriterTrace", "ReportsWriterTrace.cfg", env={"OBS_FILE": f}, workers=4, timeout=1800,
@@ -885,7 +893,7 @@ def judge_writer(ctx: Ctx, traces: list[dict], tag: str = "w") -> tuple[list[dic
         mine = [a for a in at if a["i"] == k]
         reached = max([a["idx"] for a in mine] or [0])
         out.append({"accepted": any(a["fin"] for a in mine), "reached": reached,
-                    "stuck_at": t["events"][reached] if reached < len(t["events"]) else "final-state"})
+                    "stuck_at": _ename(t["events"][reached]) if reached < len(t["events"]) else "final-state"})
     return out, res.distinct
 
 
@@ -913,8 +921,8 @@ def run(ctx: Ctx) -> Outcome:
     tier = "quick" if ctx.quick else "thorough"
 
     # ---- (c) writer thread on a slow sink: started now, runs beside (a) and (b) --------------------------------
-    wdescs = [{"n": 8, "vcr_delay": 0.012, "har_delay": 0.15}] if ctx.quick else \
-        [{"n": 8, "vcr_delay": 0.012, "har_delay": 0.15}, {"n": 3, "vcr_delay": 0.03, "har_delay": 0.4},
+    wdescs = [{"n": 8, "vcr_delay": 0.012, "har_delay": 0.3}] if ctx.quick else \
+        [{"n": 8, "vcr_delay": 0.012, "har_delay": 0.3}, {"n": 3, "vcr_delay": 0.03, "har_delay": 0.4},
          {"n": 16, "vcr_delay": 0.006, "har_delay": 0.08}, {"n": 2, "vcr_delay": 0.0, "har_delay": 0.0}]
     # a separate process (the slow runs take seconds of wall time but no CPU; this process must stay single-threaded for pmap's fork)
     wproc = subprocess.Popen([sys.executable, "-c", "import sys, json; from harness import c16; "
